@@ -235,6 +235,23 @@ and observe_ (m : model) (x : sexp) : string =
       "{\"flows\":" ^ jlist (fun f -> jlist (fun s -> s)
                  [jstr (implode f.f_name); jstr (string_of_kind f.f_kind); jopt jcomp f.f_src; jopt jcomp f.f_dst]) fl ^ "}"
   | L (A "oracle" :: _) -> "{\"oracle\":null}"
+  | L (A "history" :: calls) ->
+      let solver_of = (function "euler" -> Euler | "rk4" -> RK4 | _ -> failwith "bad solver") in
+      let call_of = (function
+        | L [A "crun"; A solver; A rb; L (A "params" :: ps)] -> CRun (params_of (L ps), solver_of solver, rb = "true")
+        | L [A "cgetrunner"; A solver; dyn; L (A "params" :: ps)] ->
+            CGetRunner (params_of (L ps),
+                        (match dyn with A "none" -> None | L (A "dyn" :: ns) -> Some (List.map str ns) | _ -> failwith "bad dyn"),
+                        solver_of solver)
+        | L [A "crunnerrun"; A k; L (A "params" :: ps)] -> CRunnerRun (nat_of_int (int_of_string k), params_of (L ps))
+        | L [A "csetdefaults"; L (A "params" :: ps)] -> CSetDefaults (params_of (L ps))
+        | _ -> failwith "bad call") in
+      let (_, outs) = steps ops (init_api ops m) (List.map call_of calls) in
+      "{\"history\":" ^ jlist (function
+          | None -> "null"
+          | Some (Err w) -> "{\"error\":" ^ jstr (implode w) ^ "}"
+          | Some (Ok r) -> "{\"outputs\":" ^ jlist jvec r.rr_outputs ^ ",\"derived\":{"
+                 ^ String.concat "," (List.map (fun (k, v) -> jstr (implode k) ^ ":" ^ jvec v) r.rr_derived) ^ "}}") outs ^ "}"
   | _ -> failwith "bad observation"
 
 let run_program (line : string) : string =
